@@ -54,6 +54,23 @@ func ingestAlphabet() []ingestArgs {
 			}
 		}
 	}
+	// addresses of an ingest request are plain strings: legal but unusual
+	// spellings of a multiaddr, strings that are no multiaddr, repeats, none
+	odd := [][]string{
+		{"/ip4/127.0.0.1/tcp/7777/"},
+		{"/ip6/0:0:0:0:0:0:0:1/tcp/80"},
+		{"/ip6/2001:DB8::1/tcp/443/https"},
+		{"/ip4/1.2.3.4/tcp/03104"},
+		{"/ip4/1.2.3.4/tcp/80/ipfs/" + fixture.Key("ed25519", 3).ID.String()},
+		{"/DNS4/example.com/tcp/80"},
+		{"not a multiaddr", ""},
+		{"/ip4/1.2.3.4/tcp/7777", "/ip4/1.2.3.4/tcp/7777", " /ip4/1.2.3.4/tcp/7777 "},
+		{},
+		nil,
+	}
+	for i, a := range odd {
+		out = append(out, ingestArgs{fmt.Sprintf("sha256,ctx8,md8,odd-addrs%d", i), mhs[0].mh, fixture.Bytes(8, 1), fixture.Bytes(8, 2), a})
+	}
 	return out
 }
 
@@ -118,7 +135,7 @@ func (f *rawRecord) UnmarshalRecord([]byte) error   { return nil }
 
 func TestCheck(t *testing.T) {
 	r := vp.New("C18", "exploration",
-		"requests: 24 ingest argument combinations and register requests with 1..3 addresses; every (signing key, named provider) pair over 4 key types with named = signer, another identity of the same type, and an identity of another type; for sealed envelopes of each key type: every single-bit flip, field-level replacement of key / payload type / payload / signature, envelopes sealed for another domain or replayed to the other reader. Non-trivial: every case except the unaltered own-key request. Distinct = distinct (reader, request, signer, named, alteration).",
+		"requests: 24 ingest argument combinations plus 10 with unusual address strings (non-canonical multiaddr spellings, non-multiaddr strings, repeats, none) and register requests with 1..3 addresses; every (signing key, named provider) pair over 4 key types with named = signer, another identity of the same type, and an identity of another type; for sealed envelopes of each key type: every single-bit flip, field-level replacement of key / payload type / payload / signature, envelopes sealed for another domain or replayed to the other reader. Non-trivial: every case except the unaltered own-key request. Distinct = distinct (reader, request, signer, named, alteration).",
 		"accept/reject is judged semantically: an altered byte string that decodes to the same (key, payload type, payload, signature) as the original is not counted as an alteration",
 		"keys: two identities per key type; RSA 2048",
 	)
